@@ -113,6 +113,18 @@ func c19Record(tier string, seed int64, emit func(interface{})) {
 			b[j] = "ACGTacgt"[rng.Intn(8)]
 		}
 		s := string(b)
+		if i%10 == 3 { // low-complexity oligos to the upper end of the range: one base or one short repeat dominates
+			m = 120 + rng.Intn(81)
+			unit := []string{"A", "T", "G", "C", "a", "AT", "GC", "AAT", "GGC", "ca"}[rng.Intn(10)]
+			lead := randDNA(rng, rng.Intn(8))
+			s = lead + strings.Repeat(unit, m/len(unit))
+			if len(s) > m {
+				s = s[:m]
+			}
+			if tail := randDNA(rng, rng.Intn(12)); len(s)+len(tail) <= 200 {
+				s += tail
+			}
+		}
 		if rng.Intn(6) == 0 { // self-complementary (in mixed case)
 			h := s[:m/2]
 			s = h + mixCase(rcDNA(strings.ToUpper(h)), rng.Intn(3))
